@@ -106,7 +106,7 @@ DEFECTS = {
                          'stale-consumer-gen'],
     'reshaper': ['stale-gen', 'unknown-provider-inv', 'unknown-provider',
                  'unknown-class', 'missing-inventory', 'over-capacity',
-                 'stale-consumer-gen'],
+                 'stale-consumer-gen', 'empties-used-provider'],
 }
 
 MIN_VERSION = {
